@@ -640,11 +640,23 @@ func ctxLayers(tier string) []Layer {
 			r, _ := f.Rat(nil)
 			facs = append(facs, fac{"NewFloat(" + fs + ")", r.Num(), r.Denom(), func(cx *dctx.Context) *Dec { return cx.NewFloat(f) }})
 		}
+		// NewFloat of big.Floats with few mantissa bits and exponents beyond the float64 range (a detour through
+		// float64 flushes or saturates them); all of them are a power of two times a small integer: exact at 34 digits or judged for value only when inexact
+		for _, bf := range []struct {
+			mant int64
+			prec uint
+			exp  int
+		}{{1, 53, -1100}, {1, 24, -1074}, {3, 53, -1075}, {1, 53, -1023}, {5, 10, -1200}, {1, 53, 1024}, {3, 53, 1100}, {-7, 8, -1090}, {-1, 53, 1500}, {1, 53, -1022}, {1, 53, 1023}} {
+			f := new(big.Float).SetPrec(bf.prec).SetInt64(bf.mant)
+			f.SetMantExp(f, bf.exp)
+			r, _ := f.Rat(nil)
+			facs = append(facs, fac{fmt.Sprintf("NewFloat(%d·2^%d, %d bits)", bf.mant, bf.exp, bf.prec), r.Num(), r.Denom(), func(cx *dctx.Context) *Dec { return cx.NewFloat(f) }})
+		}
 		fprecs := []uint{1, 2, 3, 5, 19, 20, 34}
 		layers = append(layers, Layer{
 			Name:   "A3-factories",
 			Units:  len(facs),
-			Bounds: fmt.Sprintf("%d factory calls (NewRat of 12 rationals whose numerator or denominator is longer than the precision, NewInt / NewInt64 / NewUint64 / NewString / ParseDecimal of 7 integers, NewString of 7 prefixed / separated literals, NewFloat of 4 binary-exact values) × context precision %v × 6 modes: the result is the exact argument rounded once, with truthful accuracy and the context's precision and mode", len(facs), fprecs),
+			Bounds: fmt.Sprintf("%d factory calls (NewRat of 12 rationals whose numerator or denominator is longer than the precision, NewInt / NewInt64 / NewUint64 / NewString / ParseDecimal of 7 integers, NewString of 7 prefixed / separated literals, NewFloat of 4 binary-exact values and of 11 big.Floats of 8..53 bits with binary exponents beyond the float64 range, judged exactly when they fit and within 64 units otherwise) × context precision %v × 6 modes: the result is the exact argument rounded once, with truthful accuracy and the context's precision and mode", len(facs), fprecs),
 			Run: func(c *Ctx, u int) {
 				f := facs[u]
 				for _, p := range fprecs {
@@ -673,6 +685,12 @@ func ctxLayers(tier string) []Layer {
 						if !strings.HasPrefix(f.name, "NewFloat") || exp.Acc == 0 {
 							if msg := judgeFull(o, nil, false, exp, !strings.HasPrefix(f.name, "NewFloat")); msg != "" {
 								c.Fail(key, msg)
+							}
+						}
+						if strings.HasPrefix(f.name, "NewFloat") && exp.Acc != 0 {
+							// inexact conversion: documented as naive, a few dozen units (C15); a wrong form, sign or decade is not that
+							if o.Form != exp.Form || o.Neg != exp.Neg || (o.Form == fFinite && ulpDistance(o, exp.Val(), uint32(p)).Cmp(big.NewRat(64, 1)) > 0) {
+								c.Fail(key, fmt.Sprintf("NewFloat: got %s, want %s within 64 units", o.String(), exp.String()))
 							}
 						}
 						if uint(o.Prec) != p || o.Mode != m {
